@@ -68,6 +68,27 @@ theorem decision {m n : Nat} (filtering : Option Rat) (H : QMat m n) (P : QMat n
     out.rejected = discard filtering (nis (fun i => z i - hx i) Sinv) m :=
   (C05.sensorUpdate_some filtering H P Q Sinv x z hx out h).2.2.2.1
 
+/-- the NIS of a zero innovation is zero -/
+theorem nis_zero {m : Nat} (Si : QMat m m) : nis (fun _ => (0 : ℚ)) Si = 0 := by
+  rw [nis_eq]; simp
+
+/-- a NIS of zero never exceeds the limit, whatever the threshold and the number of readings -/
+theorem zero_never_discarded (filtering : Option Rat) (m : ℕ) : discard filtering 0 m = false := by
+  cases filtering with
+  | none => rfl
+  | some k => simp [discard, exceeds]
+
+/-- **A reading exactly equal to the prediction is used, not skipped**: it is never discarded, the state stays where it is, and the
+covariance is still the updated `P − K H P` (a zero innovation carries information about the uncertainty). -/
+theorem exact_reading_is_used {m n : Nat} (filtering : Option Rat) (H : QMat m n) (P : QMat n n) (Q Sinv : QMat m m)
+    (x : Fin n → Rat) (z : Fin m → Rat) (out : UpdateOut n m)
+    (h : sensorUpdate filtering H P Q Sinv x z z = some out) :
+    out.rejected = false ∧ out.state = x ∧ out.cov = updCov H P Sinv ∧ out.innovation = (fun _ => 0) := by
+  obtain ⟨_, hi, _, hd, hacc, _⟩ := C05.sensorUpdate_some filtering H P Q Sinv x z z out h
+  have hz : (fun i => z i - z i) = (fun _ => (0 : ℚ)) := by funext i; simp
+  have hr : out.rejected = false := by rw [hd, hz, nis_zero, zero_never_discarded]
+  exact ⟨hr, C05.fixed_point filtering H P Q Sinv x z out h, (hacc hr).2, by rw [hi, hz]⟩
+
 /-- NIS is non-negative for a positive semi-definite inverse innovation covariance -/
 theorem nis_nonneg {m : Nat} (y : Fin m → ℚ) (Si : QMat m m) (h : Si.toMatrix.PosSemidef) : 0 ≤ nis y Si := by
   rw [nis_eq]; exact Mat.nis_nonneg _ h y
